@@ -5,6 +5,7 @@
 package c15
 
 import (
+	"bytes"
 	"crypto/cipher"
 	"fmt"
 	"math/big"
@@ -181,7 +182,7 @@ func Run(c *vf.Check) {
 				}
 			}
 			gn, k := gn, k
-			jobs = append(jobs, func() { runSimple(c, gn, k) }, func() { runForge(c, gn, k) }, func() { runAdjustedOutput(c, gn, k) })
+			jobs = append(jobs, func() { runSimple(c, gn, k) }, func() { runForge(c, gn, k) }, func() { runAdjustedOutput(c, gn, k) }, func() { runLinkedForge(c, gn, k) })
 			for nq := 1; nq <= 3; nq++ {
 				nq := nq
 				jobs = append(jobs, func() { runSequences(c, gn, k, nq) })
@@ -193,6 +194,10 @@ func Run(c *vf.Check) {
 	}
 	if c.Thorough() {
 		jobs = append(jobs, func() { runPair(c, "ed25519", 8, []int{7, 6, 5, 4, 3, 2, 1, 0}, false) }, func() { runPair(c, "ed25519", 12, []int{1, 2, 3, 4, 5, 6, 7, 8, 9, 10, 11, 0}, true) })
+	}
+	for _, gn := range []string{"ed25519", "p256"} {
+		gn := gn
+		jobs = append(jobs, func() { runSpellings(c, gn) })
 	}
 	vf.Parallel(len(jobs), func(i int) { jobs[i]() })
 	c.Finish("engine E: pair shuffle on Ed25519 and P-256, k=2..4 (thorough 5, and 8/12 with fixed permutations): EVERY permutation x 3 input variants (random, small, duplicate ciphertexts), with the standard base point as generator and (k<=3) with another generator g*B: the honest proof verifies; with the honest proof, every output slot replaced / duplicated / scaled / summed with its neighbour / outputs swapped / output extended or shortened, proof of another instance, proof bytes flipped and truncated, G or H replaced: accepted only if the model (brute force over permutations with known discrete logs) says the claimed output is a re-encryption permutation and nothing else changed. "+
@@ -532,6 +537,42 @@ func runSequences(c *vf.Check, gn string, k, nq int) {
 			for j := 0; j < nq; j++ {
 				e = append(e, w.sc(alpha.Rand(fmt.Sprintf("c15-e-%d", j), w.q)))
 			}
+			// challenge vectors with the values the verifier may legally pick: a leading 1 (Remark 7 of the paper), all
+			// ones, a trailing 1
+			switch seed % 4 {
+			case 1:
+				e[0] = w.sc(big.NewInt(1))
+			case 2:
+				for j := range e {
+					e[j] = w.sc(big.NewInt(1))
+				}
+			case 3:
+				if nq > 1 {
+					e[nq-1] = w.sc(big.NewInt(1)) // (a zero entry would not be a challenge: it erases its sequence)
+				}
+			}
+			encAll := func(ms ...[][]kyber.Point) (out [][]byte) {
+				for _, m := range ms {
+					for _, row := range m {
+						for _, p := range row {
+							b, _ := p.MarshalBinary()
+							out = append(out, b)
+						}
+					}
+				}
+				return
+			}
+			before := encAll(X, Y, Xb, Yb)
+			intact := func(when string) bool {
+				after := encAll(X, Y, Xb, Yb)
+				for i := range before {
+					if !bytes.Equal(before[i], after[i]) {
+						x.Failf(pk+"/inputs-changed", "%s: %s changed the caller's ciphertext matrices (entry %d)", id, when, i)
+						return false
+					}
+				}
+				return true
+			}
 			prover, err := getProver(e)
 			if err != nil {
 				x.Failf(pk+"/prover", "%s: %v", id, err)
@@ -552,8 +593,18 @@ func runSequences(c *vf.Check, gn string, k, nq int) {
 				xu, yu, xd, yd := shuffle.GetSequenceVerifiable(w.s, X, Y, Xb, Yb, e)
 				return proof.HashVerify(w.s, "c15q", shuffle.Verifier(w.s, w.G, w.H, xu, yu, xd, yd), prf)
 			}
+			if !intact("proving") {
+				return
+			}
 			if err := ver(Xb, Yb); err != nil {
 				x.Failf(pk+"/honest-rejected", "%s: honest sequence shuffle rejected: %v", id, err)
+				return
+			}
+			if err := ver(Xb, Yb); err != nil {
+				x.Failf(pk+"/honest-rejected", "%s: honest sequence shuffle rejected when verified a second time: %v", id, err)
+				return
+			}
+			if !intact("verifying") {
 				return
 			}
 			// which permutation was it? (first sequence, by brute force on the points)
